@@ -34,7 +34,7 @@ CHECKS = {
             'must-accept tuples must encode (and decode back).', '4/C06'),
     'C07': ('exploration', 'carry-class enumeration of relocate_hi/lo + executed %hi/%lo pairs on the reference ISS',
             'All low-13-bit patterns x upper carry classes at the function boundary; lui/auipc + addi/lw/sw/jalr pairs of generated programs '
-            'executed on the ISS must address exactly the value.', '4/C07'),
+            'executed on the ISS must address exactly the value; a refusal of a consumer whose literal / constant operand is a 32-bit value is a violation too.', '4/C07'),
     'C08': ('exploration', 'reference evaluation of label expressions over final offsets vs decoded immediates/data',
             'Immediates and data words decoded from the output must equal the source expression evaluated over the final label offsets taken from the '
             'blob stream; programs built so that labels move after early decisions.', '4/C08'),
@@ -49,7 +49,8 @@ CHECKS = {
             'to the same bytes as programs with the values written literally.', '4/C11'),
     'C12': ('exploration', 'differential outcome monitor compress off vs on',
             'Every program accepted without compression must be accepted with it; generators weighted to constants/aliases as shift amounts, '
-            'label-dependent immediates near RVC operand-set edges, far call/tail.', '4/C12'),
+            'label-dependent immediates near RVC operand-set edges, far call/tail, operands on RVC edges written as derived quantities, labels whose '
+            'spelling Python would read as something about a constant.', '4/C12'),
     'C13': ('exploration', 'metamorphic monitor: canonical rendering vs seeded re-spellings of the same structure',
             'All documented spelling freedoms applied independently per line and per operand; bytes and label table must be identical.', '4/C13'),
     'C14': ('exploration', 'metamorphic monitor: include tree vs harness-side flattening, under varied working directories',
@@ -71,7 +72,8 @@ CHECKS = {
             'budget) or talks to a device that has left DFU mode is a violation.', '4/C18'),
     'C19': ('fault_enumeration', 'device error-status injection at every single and double step',
             'Oversize images must produce no DNLOAD request; every injected error status must lead to a non-zero exit that names the failure, '
-            'never "done!".', '4/C19'),
+            'never "done!" and never an endless wait (bounded-progress budget); the status arrives with dfuERROR, or (nonconforming devices) with '
+            'dfuDNLOAD-IDLE, dfuIDLE, or dfuDNBUSY followed by an all-clear; a third of the runs on a terminal-like standard output.', '4/C19'),
     'C20': ('exploration', 'complete eligibility enumeration over the 28,461 legal halfwords + monotonicity monitor',
             'The expansion of every legal RVC halfword, written as a 32-bit source line, must be emitted in 16 bits under -c; compressed builds '
             'are never longer and no label moves up.', '4/C20'),
